@@ -487,6 +487,18 @@ def check_channels(case):
             elif ok2:
                 out.true("split_quat_channels:four arrays (after stack)", False, f"got {type(parts2).__name__}")
     out.true("stack_quat_channels:arguments unchanged", [ahash(p) for p in planes] == hp, "input channels modified")
+    # channel planes of different dtypes (a constant integer real part next to float colour planes, a float32 plane):
+    # stacking may promote, it may not lose values
+    for nm, conv in (("int64 real part", lambda c, p: (np.zeros_like(p, dtype=np.int64) + 1) if c == 0 else p),
+                     ("float32 real part", lambda c, p: p.astype(np.float32) if c == 0 else p),
+                     ("uint8 constant plane 2", lambda c, p: np.full(p.shape, 3, dtype=np.uint8) if c == 2 else p)):
+        mixed = [conv(c, planes[c]) for c in range(4)]
+        okm, sm = out.call(f"stack_quat_channels({nm})", qs.stack_quat_channels, *mixed)
+        if okm and out.true(f"stack_quat_channels({nm}):shape", isinstance(sm, np.ndarray) and sm.shape == (H, W, 4),
+                            f"got {getattr(sm, 'shape', None)}"):
+            for c in range(4):
+                out.equal_bits(f"stack_quat_channels({nm}):q[..., {c}] = channel {c} (value preserved)",
+                               np.asarray(sm[..., c], dtype=np.float64), np.asarray(mixed[c], dtype=np.float64))
     out.nontrivial = (H != W and len({q0[..., c].tobytes() for c in range(4)}) == 4
                       and len({ch[..., c].tobytes() for c in range(4)}) == 4)
     out.sample = {"H": H, "W": W, "pattern": case["pattern"]}
